@@ -34,6 +34,10 @@ vars == <<inst, split, seg, st, ref, cg, k, log>>
 IsLS(I) == I.solver = "ls"
 \* solvers whose whole state is the iterate (and the caller's rule object): n then m iterations = n + m iterations
 Resumable == {"newton", "sd"}
+\* the instances for which the linear CG iteration is the reference of a law
+NeedsCG(I) ==
+  /\ ~IsLS(I) /\ I.P.kind = "quad" /\ I.ls.k = "exact"
+  /\ (I.solver = "ncg" \/ (I.solver = "bfgs" /\ I.h0 = <<>> /\ I.store # 0))
 Splits(I) == IF WithSplits /\ ~IsLS(I) /\ I.N >= 2 THEN {-1} \cup 1..(I.N - 1) ELSE {-1}
 
 Init ==
@@ -43,7 +47,7 @@ Init ==
   /\ st = IF IsLS(inst) THEN [lo |-> LOInit(inst.ls), hist |-> <<>>]
           ELSE StartState(inst, inst.x0, LOInit(inst.ls))
   /\ ref = IF IsLS(inst) THEN <<>> ELSE StartState(inst, inst.x0, LOInit(inst.ls))
-  /\ cg = IF ~IsLS(inst) /\ inst.P.kind = "quad" THEN LCGInit(inst.P, inst.x0) ELSE <<>>
+  /\ cg = IF NeedsCG(inst) THEN LCGInit(inst.P, inst.x0) ELSE <<>>
   /\ k = 0
   /\ log = <<>>
 
@@ -117,10 +121,7 @@ NewtonQuartic ==
 
 \* BFGS (any memory >= 1, H_0 = identity) and nonlinear CG (all four betas) with exact line search on a quadratic
 \* generate the iterates of linear CG, hence are exact after dim steps
-CGLike ==
-  /\ Quad /\ ExactLS
-  /\ \/ inst.solver = "ncg"
-     \/ inst.solver = "bfgs" /\ inst.h0 = <<>> /\ inst.store # 0
+CGLike == NeedsCG(inst)
 SameAsCG == CGLike => ref.x = cg.x
 ExactAfterDim == (CGLike /\ Unsplit /\ k >= nn) => st.x = PP.sol
 \* the search directions are mutually conjugate
